@@ -44,6 +44,12 @@ def c13_desc(rng, nstructs, aligned):
         lead = rng.choice([1, 3, 5, 7])
         desc["structs"].append({"name": "Odd0", "fields": [
             {"name": "a", "id": 0, "type": ("u", lead)}, {"name": "s", "id": 1, "type": ("str",)}, {"name": "b", "id": 2, "type": ("u", 8 - lead)}]})
+        # dynamic arrays whose elements are narrower than a byte (more elements than bytes), last in the message and followed by a field
+        nw = rng.choice([1, 2, 4, 7])
+        desc["structs"].append({"name": "Odd2", "fields": [
+            {"name": "seq", "id": 0, "type": ("u", 8)}, {"name": "data", "id": 1, "type": ("dyn", ("u", nw))}]})
+        desc["structs"].append({"name": "Odd3", "fields": [
+            {"name": "bits", "id": 0, "type": ("dyn", ("u", rng.choice([1, 3]))), }, {"name": "crc", "id": 1, "type": ("u", 16)}]})
         desc["structs"].append({"name": "Odd1", "fields": [
             {"name": "a", "id": 0, "type": ("u", lead)}, {"name": "l", "id": 1, "type": ("dyn", ("str",))},
             {"name": "o", "id": 2, "type": ("opt", ("u", 16))}, {"name": "f", "id": 3, "type": ("f32",)}, {"name": "w", "id": 4, "type": ("arr", ("u", 8), 2)}]})
